@@ -474,6 +474,16 @@ var catalogue = []mutation{
 	}},
 	// ---- repository URL
 	{"repository-url-change", true, func(t *rapid.T, w *world, _ *auxData) bool { w.repo += "x"; return true }},
+	{"repository-url-spelling-change", true, func(t *rapid.T, w *world, _ *auxData) bool {
+		// the `.git` suffix or a trailing slash added or dropped: usually the same repository, not the same URL
+		suf := rapid.SampledFrom([]string{".git", "/"}).Draw(t, "reposuffix")
+		if strings.HasSuffix(w.repo, suf) {
+			w.repo = strings.TrimSuffix(w.repo, suf)
+		} else {
+			w.repo += suf
+		}
+		return true
+	}},
 	// ---- verification env
 	{"venv-signed-value-change", true, func(t *rapid.T, w *world, _ *auxData) bool {
 		se := signedEnvFields(w.sig)
@@ -481,6 +491,35 @@ var catalogue = []mutation{
 			return false
 		}
 		w.venv[rapid.SampledFrom(se).Draw(t, "n")] += mut
+		return true
+	}},
+	{"venv-signed-var-only-under-a-name-of-other-case", true, func(t *rapid.T, w *world, _ *auxData) bool {
+		// the signed variable is gone; a variable whose name differs from it only in letter case holds
+		// the signed value (names are case-sensitive: that is a different variable)
+		var cased []string
+		for _, n := range signedEnvFields(w.sig) {
+			if strings.ToUpper(n) != n || strings.ToLower(n) != n {
+				cased = append(cased, n)
+			}
+		}
+		if len(cased) == 0 {
+			return false
+		}
+		n := rapid.SampledFrom(cased).Draw(t, "n")
+		twin := strings.ToUpper(n)
+		if twin == n || rapid.Bool().Draw(t, "lower") {
+			if l := strings.ToLower(n); l != n {
+				twin = l
+			}
+		}
+		if _, clash := w.venv[twin]; clash || twin == n {
+			return false
+		}
+		if _, shadow := w.step.Env[twin]; shadow {
+			return false
+		}
+		w.venv[twin] = w.venv[n]
+		delete(w.venv, n)
 		return true
 	}},
 	{"venv-signed-var-removed", true, func(t *rapid.T, w *world, _ *auxData) bool {
@@ -735,7 +774,7 @@ var catalogue = []mutation{
 	}},
 }
 
-var rec = ev.New("TestPropMutationsBreakVerification", "command steps built as structs (S command text, step env, plugins with nested configs from the documented source forms, matrices with adjustments and extras, unsigned label/key/cache/unknown fields), pipeline env, repository URL, key kind in {EdDSA, ES512, PS512, ES256 signer}; each case signs, checks the positive control (verification env = pipeline env + unrelated variables, public half only), applies ONE mutation from a catalogue of 44 semantic mutations (must fail) or 9 benign ones (must still verify); non-trivial = semantic mutation applied to a step with >= 1 plugin or matrix or step env; distinct by hash of (step, mutation, key kind)")
+var rec = ev.New("TestPropMutationsBreakVerification", "command steps built as structs (S command text, step env, plugins with nested configs from the documented source forms, matrices with adjustments and extras, unsigned label/key/cache/unknown fields), pipeline env, repository URL, key kind in {EdDSA, ES512, PS512, ES256 signer}; each case signs, checks the positive control (verification env = pipeline env + unrelated variables, public half only), applies ONE mutation from a catalogue of 46 semantic mutations (must fail) or 9 benign ones (must still verify); non-trivial = semantic mutation applied to a step with >= 1 plugin or matrix or step env; distinct by hash of (step, mutation, key kind)")
 
 func TestPropMutationsBreakVerification(t *testing.T) {
 	ctx := context.Background()
